@@ -2,6 +2,7 @@
    Statements only; proofs are in Proofs/Supply.v. *)
 From Hub Require Import Base.Prelude Base.Arith Model.Types Model.Keeper Model.Handlers Model.Hooks Model.Step.
 From Hub Require Import Proofs.Tactics Proofs.Frames Proofs.Money Proofs.Supply.
+From Hub Require Import Gen.Wiring Proofs.WiringThm.
 
 (* For each hash at most one swap is ever executed: once recorded, a request with the
    same hash is rejected, and a recorded swap is never altered or removed. *)
@@ -45,8 +46,18 @@ Theorem C14_supply_is_sum_of_swaps : forall ops s s' d,
   amount_of (supply s') d - amount_of (supply s) d = swap_total s' d - swap_total s d.
 Proof. intros ops s s' d H. exact (supply_tracks_swaps_run ops s 0%nat s' d H). Qed.
 
+Section wiring.
+Local Open Scope string_scope.
+(* app wiring (regenerated from app/module.go on every run): among the hub's module accounts only swap can mint, none can burn *)
+Theorem C14_only_swap_mints :
+  perms_of "swaptypes.ModuleName" = Some ["authtypes.Minter"] /\ perms_of "deposittypes.ModuleName" = Some [] /\
+  perms_of "customminttypes.ModuleName" = Some [].
+Proof. exact (conj swap_can_only_mint (conj deposit_cannot_mint_or_burn custommint_has_no_permission)). Qed.
+End wiring.
+
 Print Assumptions C14_once_per_hash.
 Print Assumptions C14_records_are_permanent.
 Print Assumptions C14_accepted_swap.
 Print Assumptions C14_nothing_else.
 Print Assumptions C14_supply_is_sum_of_swaps.
+Print Assumptions C14_only_swap_mints.
